@@ -164,6 +164,9 @@ DROPS[("DateTime.time", "Time", "self", "tzinfo")] = "datetime.time() is naive i
 DROPS[("DateTime.time", "Time", "self", "fold")] = "kept as the drop-in of the native time(), whose fold is not observable without tzinfo"
 
 
+MIX_OK: set[tuple[str, str, str]] = set()     # (function, callee, parameter) of legitimate mixes; none today
+
+
 def check_site(ctx, s: Site, rule: str = "RECON", drops: dict | None = None,
                pendulum_receivers: tuple[str, ...] = ()) -> None:
     drops = DROPS if drops is None else drops
@@ -190,6 +193,22 @@ def check_site(ctx, s: Site, rule: str = "RECON", drops: dict | None = None,
         for p in g:
             ctx.ob(f"{rule}.gap", f"{s.key}/{p}", p in s.bound,
                    f"{p} is not passed although other {'/'.join(grp)} fields of {s.src} are", s.loc)
+    # (ii') no silent mixing: when one group is projected from the source, the other group's parameters must be
+    # projections too (of any temporal source) or literals - a bare local in their place means those fields
+    # bypass the converted value (e.g. create() rebuilding year/month/day from its own arguments)
+    for grp, other in ((DATE_F, TIME_F), (TIME_F, DATE_F)):
+        if not (projected & set(other)):
+            continue
+        for p in grp:
+            if p not in params or p not in s.bound or p in s.proj:
+                continue
+            e = core.strip_casts(s.bound[p])
+            is_proj = isinstance(e, ast.Attribute) and e.attr in FIELDS
+            if is_proj or core.is_const(e) or (s.func, s.callee, p) in MIX_OK:
+                continue
+            ctx.ob(f"{rule}.mixed", f"{s.key}/{p}", False,
+                   f"{p}={un(e)} while the {'/'.join(other)} fields are taken from {s.src}: the value is rebuilt from two "
+                   f"different sources, so a change of {s.src}'s date/time part (gap shift, conversion) is lost", s.loc)
     # (iii) state fields
     if projected & set(TIME_F) or s.kind in ("DT", "CREATE") and len(projected & set(TIME_F)) > 0:
         for p in params:
